@@ -274,7 +274,7 @@ func resolveUpdate(w *World, op Op, st Stored) *Request {
 		case len(lines) > maxNoteSigs:
 			r.SigValid = 0 // more signature lines than the note format allows: not a note
 		case len(lines)+len(w.WitKeys) > maxNoteSigs && r.SigValid == 1:
-			r.SigValid = -1 // a note, but its cosigned form would not be one: it cannot be accepted; how it is refused is left open
+			r.SigValid = -2 // a note, but its cosigned form would not be one: it cannot be accepted, and how THAT is refused is left open; a rule that refuses it before any signing still applies
 		}
 	case "xsig_unknown_first":
 		pre := []string{}
@@ -553,6 +553,15 @@ func modelVerdict(known bool, sigValid int, st Stored, size uint64, root []byte,
 	}
 	if sigValid == 0 {
 		return "no_sig"
+	}
+	if sigValid == -2 && !st.Bad {
+		// validly signed but not cosignable: the four refusals that come before any signing are what they are for any other
+		// validly signed checkpoint; only where the request would otherwise be accepted is the answer open
+		switch v := modelVerdict(known, 1, st, size, root, old, proof); v {
+		case "old_too_large", "stale", "root_mismatch", "bad_proof":
+			return v
+		}
+		return "any"
 	}
 	if sigValid < 0 || st.Bad {
 		return "any"
